@@ -22,7 +22,7 @@
                                         special case [gsort_terminates]);
     - any [Ok] result is a [desc] permutation of the input ([gsort_ok_sorted]). *)
 From Coq Require Import Bool List Arith Lia Permutation.
-From GB Require Import Num Event Cmp Heap Outcome Connect.
+From GB Require Import Prim Num Event Cmp Heap Outcome Connect.
 Import ListNotations.
 
 (* ====================================================================================== *)
@@ -469,8 +469,9 @@ Lemma bubble_sort_is_gsort : forall fuel l,
   bubble_sort fuel st l = gsort (ev_lt st) fuel l.
 Proof.
   induction fuel as [|f IH]; intros [|x rest]; try reflexivity;
-    cbn [bubble_sort gsort]; rewrite bubble_pass_is_gpass; [reflexivity|].
-  destruct (gpass (ev_lt st) x rest) as [l' [|]]; [apply IH | reflexivity].
+    cbn [bubble_sort gsort]; rewrite bubble_pass_is_gpass.
+  - destruct (gpass (ev_lt st) x rest) as [l' [|]]; reflexivity.
+  - destruct (gpass (ev_lt st) x rest) as [l' [|]]; [apply IH | reflexivity].
 Qed.
 
 Theorem bubble_pass_perm : forall rest x,
@@ -616,7 +617,7 @@ Qed.
 Lemma sift_up_loop_length : forall fuel (data : list T) start hole x,
   length (sift_up_loop le dflt fuel data start hole x) = length data.
 Proof.
-  induction fuel as [|f IH]; intros data start hole x; cbn [sift_up_loop].
+  induction fuel as [|f IH]; intros data start hole x; cbn [sift_up_loop]; rewrite ?psub_eq.
   - apply hset_length.
   - destruct (start <? hole); [|apply hset_length].
     destruct (le x (get data (par hole))); [apply hset_length|].
@@ -627,7 +628,7 @@ Lemma sift_up_loop_perm : forall fuel (data : list T) start hole x,
   hole < length data ->
   Permutation (sift_up_loop le dflt fuel data start hole x) (hset data hole x).
 Proof.
-  induction fuel as [|f IH]; intros data start hole x Hh; cbn [sift_up_loop].
+  induction fuel as [|f IH]; intros data start hole x Hh; cbn [sift_up_loop]; rewrite ?psub_eq.
   - apply Permutation_refl.
   - destruct (start <? hole) eqn:Hlt; [|apply Permutation_refl].
     apply Nat.ltb_lt in Hlt.
@@ -644,7 +645,7 @@ Lemma sift_down_loop_perm : forall fuel (data : list T) end_ hole x data' hole',
   Permutation (hset data' hole' x) (hset data hole x).
 Proof.
   induction fuel as [|f IH]; intros data end_ hole x data' hole' He Hh Hrun;
-    cbn [sift_down_loop] in Hrun.
+    cbn [sift_down_loop] in Hrun; rewrite ?psub_eq in Hrun.
   - inversion Hrun; subst. repeat split; [exact Hh | apply Permutation_refl].
   - destruct (2 * hole + 1 <=? end_ - 2) eqn:Hc.
     + apply Nat.leb_le in Hc.
@@ -731,7 +732,7 @@ Lemma sift_up_loop_filled : forall fuel (data : list T) start hole x,
   sift_up_loop le dflt fuel data start hole x =
   sift_up_loop le dflt fuel (hset data hole x) start hole x.
 Proof.
-  intros [|f] data start hole x; cbn [sift_up_loop].
+  intros [|f] data start hole x; cbn [sift_up_loop]; rewrite ?psub_eq.
   - rewrite hset_hset_same. reflexivity.
   - destruct (start <? hole) eqn:Hlt; [|rewrite hset_hset_same; reflexivity].
     apply Nat.ltb_lt in Hlt.
@@ -763,7 +764,7 @@ Lemma sift_up_heap_ok : forall fuel (d : list T) hole,
   heap_ok (sift_up_loop le dflt fuel d 0 hole (get d hole)).
 Proof.
   induction fuel as [|f IH]; intros d hole Hf Hh [I1 I2]; [lia|].
-  cbn [sift_up_loop]. destruct (0 <? hole) eqn:H0.
+  cbn [sift_up_loop]; rewrite ?psub_eq. destruct (0 <? hole) eqn:H0.
   - apply Nat.ltb_lt in H0. pose proof (par_lt hole H0) as Hpl.
     set (p := par hole) in *.
     destruct (le (get d hole) (get d p)) eqn:Hle.
@@ -877,7 +878,7 @@ Lemma sift_down_loop_inv : forall fuel (data : list T) end_ hole data' hole',
   down_inv data' hole' /\ length data <= 2 * hole' + 1.
 Proof.
   induction fuel as [|f IH]; intros data end_ hole data' hole' He Hh Hf Hinv Hrun; [lia|].
-  cbn [sift_down_loop] in Hrun.
+  cbn [sift_down_loop] in Hrun; rewrite ?psub_eq in Hrun.
   destruct (2 * hole + 1 <=? end_ - 2) eqn:Hc.
   - apply Nat.leb_le in Hc.
     set (c := if le (get data (2 * hole + 1)) (get data (2 * hole + 1 + 1))
